@@ -5,6 +5,7 @@ import (
 	"context"
 	"errors"
 	"fmt"
+	"strings"
 	"unicode/utf8"
 
 	protocol "github.com/hujm2023/go-sms-protocol"
@@ -56,6 +57,20 @@ func c05Text(c *fw.Case, t string, proto bool) {
 	}
 	tab := ref.GSM7()
 	septets, inGSM := tab.Encode(t)
+	if len(t) <= 2000 {
+		c.Echo("codecs.Encode+Decode", func() string {
+			var sb strings.Builder
+			for _, cd := range codecDefs {
+				enc, err := cd.mk(t).Encode()
+				fmt.Fprintf(&sb, "%s:%v:%s;", cd.name, err != nil, digestBytes(enc))
+				if err == nil {
+					dec, derr := cd.mk(string(enc)).Decode()
+					fmt.Fprintf(&sb, "%v:%s;", derr != nil, digestBytes(dec))
+				}
+			}
+			return sb.String()
+		})
+	}
 	for _, cd := range codecDefs {
 		c.Evals(1)
 		var enc []byte
